@@ -74,7 +74,19 @@ class PrintAstVisitor(Visitor):
 
     @staticmethod
     def leave_document(node: PrintedNode, *_args: Any) -> str:
-        return join(node.definitions, "\n\n")
+        definitions: list[str] = []
+        for definition in node.definitions or ():
+            if (
+                definition.startswith("{")
+                and definitions
+                and not definitions[-1].endswith("}")
+            ):
+                # A shorthand query after a definition without a body (like
+                # "type T") would be parsed as the body of that definition.
+                definition = "query " + definition  # noqa: PLW2901
+            if definition:
+                definitions.append(definition)
+        return "\n\n".join(definitions)
 
     @staticmethod
     def leave_operation_definition(node: PrintedNode, *_args: Any) -> str:
